@@ -170,6 +170,8 @@ pub fn kdf(outlen: usize, id: u64, ctx: &[u8; 8], key: &[u8; 32]) -> (Impls, Opt
 pub fn x25519(n: &[u8; 32], p: &[u8; 32]) -> (Impls, Option<Vec<u8>>, bool) {
     let mut v: Impls = vec![];
     v.push(("crypto_scalarmult".into(), { let mut q = [0u8; 32]; cc::crypto_scalarmult(&mut q, n, p); Ok(q.to_vec()) }));
+    // what the output buffer held before the call (a previous shared secret, say) does not matter
+    v.push(("crypto_scalarmult (output buffer in use)".into(), { let mut q = [0x6Du8; 32]; q[0] = n[1]; cc::crypto_scalarmult(&mut q, n, p); Ok(q.to_vec()) }));
     let mut r = vec![0u8; 32];
     let rc = unsafe { so::crypto_scalarmult(r.as_mut_ptr(), n.as_ptr(), p.as_ptr()) };
     // libsodium computes the value even when it reports the all-zero result with -1
@@ -596,6 +598,9 @@ pub fn cmd_sweep_c05(args: &[String]) {
             let me_sk: [u8; 32] = rng.arr();
             let mut me_pk = [0u8; 32];
             cc::crypto_scalarmult_base(&mut me_pk, &me_sk);
+            // the own public key enters the session keys as the bytes the caller holds: usually the key that belongs to the
+            // secret key, sometimes another encoding of it (bit 255 set) or a key that does not belong to it at all
+            match rng.below(4) { 1 => me_pk[31] |= 0x80, 2 => { let o: [u8; 32] = rng.arr(); cc::crypto_scalarmult_base(&mut me_pk, &o); } _ => {} }
             let (mut srx, mut stx) = ([0u8; 32], [0u8; 32]);
             let rc = unsafe {
                 if role == "client" { so::crypto_kx_client_session_keys(srx.as_mut_ptr(), stx.as_mut_ptr(), me_pk.as_ptr(), me_sk.as_ptr(), peer.as_ptr()) }
